@@ -299,6 +299,16 @@ fn conversions(e: &str, paths: &[String]) -> String {
     };
     let base = describe(&g);
     let mut out = vec![format!("display={}", hex(&g.to_string()))];
+    // owned matched text returns the same captures as the borrowed matched text it was made from
+    let bad_owned: Vec<String> = paths
+        .iter()
+        .filter(|p| matched_line(&g, n, p).contains("owned=diff"))
+        .map(|p| hex(p))
+        .collect();
+    out.push(format!(
+        "owned-vs-borrowed={}",
+        if bad_owned.is_empty() { "same".to_string() } else { format!("DIFF<{}>", bad_owned[0]) }
+    ));
     let mut routes: Vec<(&str, String)> = vec![];
     let shown = g.to_string();
     routes.push(("display-new", Glob::new(&shown).map(|x| describe(&x)).unwrap_or_else(|e| error_line(&e))));
